@@ -47,6 +47,24 @@ theorem set_mkdir_closed {d0 d : Map DNode} {r : Path} {v : DNode}
     · subst har; exact absurd this hnd
     · rw [Map.get?_set_ne _ _ _ _ (Ne.symm har)]; exact this
 
+/-- unlinking a symlink keeps the destination parent-closed: nothing lives below a link -/
+theorem dirBase_closed (act : Act) {d : Map DNode} (r : Path) (hc : GClosed d) : GClosed (dirBase act d r) := by
+  intro p hp a h1 h2 h3
+  by_cases hpr : p = r
+  · subst hpr
+    rw [dirBase_get?_ne _ _ _ _ h3]
+    rcases dirBase_get?_self act d p with he | ⟨_, _, hn⟩
+    · rw [he] at hp; exact hc p hp a h1 h2 h3
+    · exact absurd hn hp
+  · rw [dirBase_get?_ne _ _ _ _ hpr] at hp
+    have hda := hc p hp a h1 h2 h3
+    by_cases har : a = r
+    · subst har
+      rcases dirBase_get?_self act d a with he | ⟨_, ⟨s, hs⟩, _⟩
+      · rw [he]; exact hda
+      · rw [hda] at hs; cases hs
+    · rw [dirBase_get?_ne _ _ _ _ har]; exact hda
+
 /-- fault-free execution keeps the destination parent-closed -/
 theorem perform_closed {cfg : Cfg} {w w' : World} {t : Task} (h : perform cfg w t = some w')
     (hc : GClosed w.dst) : GClosed w'.dst := by
@@ -79,9 +97,11 @@ theorem perform_closed {cfg : Cfg} {w w' : World} {t : Task} (h : perform cfg w 
         | nothing => simp only [hp, Option.some.injEq] at h; subst h; exact hc
         | dir =>
           simp only [hp] at h
-          cases hm : mkdirAll w.dst t.rel with
+          cases hm : mkdirAll (dirBase t.act w.dst t.rel) t.rel with
           | none => simp [hm] at h
-          | some d => simp only [hm, Option.map_some, Option.some.injEq] at h; subst h; exact mkdirAll_closed hm hc
+          | some d =>
+            simp only [hm, Option.map_some, Option.some.injEq] at h; subst h
+            exact mkdirAll_closed hm (dirBase_closed t.act t.rel hc)
         | symlink text =>
           simp only [hp] at h
           obtain ⟨d, hm, hnd, hd', _⟩ := writeSymlink_spec h
